@@ -34,7 +34,7 @@ PROPS = {
                 "Unknown nodes, unknown(\"x\") calls, unknowns nested in sets/records/constructor calls) x entity attributes/tags with unknowns x complete and "
                 ".partial() stores; per case 3 (quick) / 8 (thorough) substitutions of values of the declared kinds; each substitution: reauthorize (store with "
                 "unknown attributes kept, and substituted) vs fresh concrete is_authorized vs model; non-trivial = at least one residual policy; distinct by canonical request+policies",
-        "theorems": ["table_sound", "pinterp_sound_partial", "reauthorize_eq_fresh"],
+        "theorems": ["table_sound", "pinterp_sound_partial", "reauthorize_eq_fresh", "reauthorize_eq_fresh_frag"],
         "assumptions": ["error classes are not compared between residual evaluation and concrete evaluation (the property says 'errors')",
                         "unknowns created by a partial store for missing entities are substituted by the entity itself; the completed store is the full store",
                         "an unknown nested inside an entity attribute value is only discovered by the reauthorize round that first dereferences the entity "
